@@ -27,8 +27,11 @@
         padding / border that encloses a bottom margin of its last descendants (7: without that)
      17 a page ends early, but not when "still fits" is judged with the room the second layout
         of inFlowLayout reserves (bottom padding / border of a block reserved for all its
-        fragments); possibly together with the readings of 14 / 15 *)
-From Verif Require Export Layout.Paginate Layout.PaginateSpec.
+        fragments); possibly together with the readings of 14 / 15
+     20 (case CMBox) the numbers a page-margin box shows differ from Layout/PaginateCounters.v:
+        every margin box evaluates its own counter-* declarations and its content on a copy
+        of the page's counter state (page = position of the page, pages = number of pages) *)
+From Verif Require Export Layout.Paginate Layout.PaginateSpec Layout.PaginateCounters.
 From Coq Require Import QArith List NArith ZArith Bool Arith.
 Import ListNotations.
 Local Open Scope nat_scope.
@@ -40,9 +43,13 @@ Record ipage := mkIPage {
   i_side : N; i_blank : bool; i_first : bool; i_index : Z; i_name : N;
   i_units : list iunit; i_ctr : option ictr }.
 
+(* CMBox: the margin rules of the document's base @page rule (besides @bottom-center) and, per
+   page, per rule, the numbers the laid-out margin box shows (one list per counter() /
+   counters() of its content) *)
 Inductive case :=
 | CDoc (d : doc) (ps : list ipage)
-| CCrash (d : doc).
+| CCrash (d : doc)
+| CMBox (bs : list mbox) (shown : list (list (list (list Z)))).
 
 Section Reading.
 (* which reading of "change of named page" is used: true = CSS Page 3 *)
@@ -243,14 +250,27 @@ Definition check (c : case) : N :=
                   then 17%N else kr
                 else k'
   | CCrash d => if forallb wf_flow (d_flow d) then 12%N else 2%N
+  | CMBox bs shown =>
+      if negb (forallb in_range bs) then 2%N
+      else if list_eqb (list_eqb (list_eqb (list_eqb Z.eqb))) shown (doc_margin_texts (length shown) bs)
+      then 0%N else 20%N
   end.
 
 (* what the model paginates the document to (printed in replays): per page
    (side, blank, index, name, units, content-box height) *)
 Definition model_out (c : case) : list (N * bool * Z * N * list nat * Q) :=
-  let d := match c with CDoc d _ => d | CCrash d => d end in
+  match c with
+  | CMBox bs shown =>
+      (* per page: (0, false, page number, 0, the numbers of all its margin boxes in a row, 0);
+         negative numbers are shown as 0 *)
+      map (fun i => (0%N, false, Z.of_nat (S i), 0%N,
+                     map Z.to_nat (concat (concat (margin_texts (page_values i (length shown)) bs))), 0%Q))
+          (seq 0 (length shown))
+  | _ =>
+  let d := match c with CDoc d _ => d | CCrash d => d | CMBox _ _ => mkDoc false BAuto [] [] end in
   map (fun p => (p_side (pg_type p), p_blank (pg_type p), p_index (pg_type p), p_name (pg_type p),
-                 pg_units p, Qred (g_h (pg_geom p)))) (paginate true d).
+                 pg_units p, Qred (g_h (pg_geom p)))) (paginate true d)
+  end.
 
 Fixpoint mismatches (i : N) (cs : list case) : list (N * N) :=
   match cs with
